@@ -78,6 +78,20 @@ def _always_assigned(stmts: List[ast.stmt]) -> set:
     return out
 
 
+def _post_init_tuple(ci: ClassInfo, attr: Optional[str]) -> Optional[List[Optional[str]]]:
+    """a derived attribute that __post_init__ defines as a tuple of fields: self.shape = (self.l_y, self.l_x)"""
+    post = ci.methods.get("__post_init__")
+    if attr is None or post is None:
+        return None
+    found = None
+    for st in post.real_body():
+        if isinstance(st, ast.Assign) and len(st.targets) == 1 and _self_attr(st.targets[0]) == attr:
+            found = st.value
+    if isinstance(found, ast.Tuple):
+        return [_self_attr(e) for e in found.elts]
+    return None
+
+
 def _flatten_lists(ctx, ci: ClassInfo) -> Tuple[Optional[List[Optional[str]]], Optional[List[Optional[str]]], str]:
     """(children field names, aux field names) returned by tree_flatten; None entries = not a plain self.<f>."""
     fl = ci.methods.get("tree_flatten")
@@ -94,7 +108,17 @@ def _flatten_lists(ctx, ci: ClassInfo) -> Tuple[Optional[List[Optional[str]]], O
 
     def names(node) -> List[Optional[str]]:
         if isinstance(node, (ast.Tuple, ast.List)):
-            return [_self_attr(e) for e in node.elts]
+            out: List[Optional[str]] = []
+            for e in node.elts:
+                if isinstance(e, ast.Starred):
+                    # *self.shape, where __post_init__ sets self.shape = (self.l_y, self.l_x): the fields, in that order
+                    comp = _post_init_tuple(ci, _self_attr(e.value))
+                    if comp is None:
+                        raise AnalysisError(f"{ci.qualname}.tree_flatten: unmodelled *{ast.unparse(e.value)}")
+                    out.extend(comp)
+                else:
+                    out.append(_self_attr(e))
+            return out
         if isinstance(node, ast.Call):
             fn = dotted(node.func) or ""
             if fn.endswith("astuple") and len(node.args) == 1 and isinstance(node.args[0], ast.Name):
@@ -305,6 +329,23 @@ def lat2(ctx):
                                fi, it.lineno)
         ctx.ob("LAT-2", f"{ci.qualname}: constructor body reachable", True,
                "no iteration over int-typed fields", mod=MOD, line=ci.lineno, nontrivial=False)
+    # a hash is not an identity: two different lattices may share a hash value (the hand-written __hash__ methods do not
+    # cover every field, and need not), so a hash() result must not be used to look a lattice's data up
+    keyed = []
+    tree = p.module(MOD).tree
+
+    def scan(node, in_hash):
+        for ch in ast.iter_child_nodes(node):
+            if isinstance(ch, (ast.FunctionDef, ast.AsyncFunctionDef)):
+                scan(ch, in_hash or ch.name == "__hash__")
+                continue
+            if isinstance(ch, ast.Call) and isinstance(ch.func, ast.Name) and ch.func.id == "hash" and not in_hash:
+                keyed.append(ch.lineno)
+            scan(ch, in_hash)
+    scan(tree, False)
+    ctx.ob("LAT-2", f"{MOD}: hash values are produced by __hash__ only, never used as lookup keys for lattice data",
+           not keyed, f"hash(...) outside __hash__ at line(s) {keyed}" if keyed else "no hash() call outside __hash__",
+           mod=MOD, line=keyed[0] if keyed else 1)
 
 
 # ---------------------------------------------------------------- LAT-3 (mixed radix)
@@ -505,7 +546,7 @@ def lat3(ctx):
                f"strides {lf}" + ("" if same else f" but the site list decodes with strides {strides}"),
                gsn)
         # adjacency matrix indexing
-        cam = ci.methods.get("create_adjacency_matrix")
+        cam = _adjacency_builder(ctx, ci)
         if cam is None:
             ctx.rep.note(f"{ci.qualname} has no create_adjacency_matrix (nothing to check)")
             continue
@@ -515,6 +556,25 @@ def lat3(ctx):
 
 
 _ADJ_GUARDED: Dict[str, Dict[int, bool]] = {}
+
+
+def _adjacency_builder(ctx, ci) -> Optional[FuncInfo]:
+    """the method whose body fills the adjacency matrix: create_adjacency_matrix itself, or -- when that only wraps
+    another method of the class (a cache, a dispatcher) -- the method it calls or hands on"""
+    cam = ci.methods.get("create_adjacency_matrix")
+    if cam is None:
+        return None
+
+    def builds(fi) -> bool:
+        return any(isinstance(n, ast.Attribute) and n.attr == "get_nearest_neighbors" for n in ast.walk(fi.node))
+    if builds(cam):
+        return cam
+    for n in ast.walk(cam.node):
+        a = _self_attr(n)
+        if a and a in ci.methods and a != "create_adjacency_matrix" and builds(ci.methods[a]):
+            ctx.rep.note(f"{ci.qualname}.create_adjacency_matrix delegates to {a}; analysed there")
+            return ci.methods[a]
+    return cam
 
 
 def _adjacency(ctx, ci, cam: FuncInfo, strides, comps, total):
@@ -777,6 +837,36 @@ def _component(t: T, pos: T) -> Optional[Tuple[int, int, Optional[str]]]:
     return None
 
 
+def _neighbour_elements(r: T):
+    """[(coordinate tuple, axes the neighbour function range-tests itself)] of a neighbour list written as a display,
+    a concatenation of displays, or an identity comprehension with a filter over a display; None if none of these"""
+    if r.op in ("list", "tuple"):
+        return [(strip_wrappers(x), frozenset()) for x in r.args]
+    if r.op == "binop" and r.args[0] == "+":
+        a, b = _neighbour_elements(strip_wrappers(r.args[1])), _neighbour_elements(strip_wrappers(r.args[2]))
+        return None if a is None or b is None else a + b
+    if r.op == "comp" and len(r.args) == 3 and r.args[0] == "list":
+        elt, gen = r.args[1], r.args[2]
+        if gen.op != "gen" or len(gen.args) < 1:
+            return None
+        src = strip_wrappers(gen.args[0])
+        inner = _neighbour_elements(src)
+        if inner is None:
+            return None
+        it = [x for x in subterms(elt) if x.op == "iter"]
+        # identity comprehension:  [n for n in src if test(n)]
+        e0 = strip_wrappers(elt.args[0]) if elt.op == "tuple" and len(elt.args) == 1 else strip_wrappers(elt)
+        if not (e0.op == "iter" and len(it) == 1):
+            return None
+        axes = set()
+        for cnd in gen.args[1:]:
+            for x in subterms(cnd):
+                if x.op == "getitem" and x.args[0] is e0 and x.args[1].op == "const":
+                    axes.add(x.args[1].args[0])
+        return [(t_, f_ | frozenset(axes)) for t_, f_ in inner]
+    return None
+
+
 def lat45(ctx):
     n = 0
     for ci in lattice_classes(ctx):
@@ -806,15 +896,18 @@ def lat45(ctx):
                 rem.remove(x)
             extent[k] = tuple(rem)
         variants = {}
+        unmodelled: List[str] = []
         for bits in product([True, False], repeat=len(conds)):
             assign = dict(zip(conds, bits))
             r = strip_wrappers(_resolve_phis(res, assign))
             if r.op == "call" and array_fn(r) == "array":
                 r = call_parts(r)[1][0]
-            if r.op not in ("list", "tuple"):
-                raise AnalysisError(f"{ci.qualname}.get_nearest_neighbors: unmodelled return {show(r)[:80]}")
+            elems = _neighbour_elements(strip_wrappers(r))
+            if elems is None:
+                unmodelled.append(show(r, maxdepth=3)[:80])
+                continue
             offs = []
-            for nb in r.args:
+            for nb, filt in elems:
                 if nb.op != "tuple":
                     raise AnalysisError(f"{ci.qualname}.get_nearest_neighbors: neighbour is not a tuple")
                 vec, mods = {}, {}
@@ -824,11 +917,18 @@ def lat45(ctx):
                         raise AnalysisError(
                             f"{ci.qualname}.get_nearest_neighbors: unmodelled component {show(c)[:80]}")
                     vec[axis_pos] = comp[1]
-                    mods[axis_pos] = comp[2]
+                    # a coordinate the neighbour function itself range-tests before returning the site
+                    mods[axis_pos] = comp[2] if comp[2] is not None or axis_pos not in filt else "?filtered"
                 offs.append((tuple(vec[k] for k in sorted(vec)), tuple(mods[k] for k in sorted(mods))))
             key = tuple((show(c), b) for c, b in assign.items())
             variants[key] = offs
         n += 1
+        if unmodelled:
+            # the neighbour list is built in a way this rule does not model (not a display of coordinate tuples): the
+            # offset rules do not apply to this class; recorded, no verdict
+            ctx.rep.note(f"{ci.qualname}.get_nearest_neighbors: neighbour list not a display of coordinate tuples "
+                         f"({unmodelled[0]}); LAT-4 / LAT-5 offset rules not applicable to this class")
+            continue
         # group variants: parity condition (depends on pos) vs configuration condition (self.*)
         def is_parity(c: T) -> bool:
             return any(x is pos for x in subterms(c))
@@ -885,7 +985,7 @@ def lat45(ctx):
             # moduli: periodic axes must be reduced by the field that is the axis' extent
             for o in offs:
                 for k, m in enumerate(o[1]):
-                    if m is None:
+                    if m is None or m == "?filtered":
                         continue
                     ok = (m,) == extent[k]
                     if not ok:
@@ -894,15 +994,15 @@ def lat45(ctx):
             mods_by_axis = {}
             for o in offs:
                 for k, m in enumerate(o[1]):
-                    if o[0][k] != 0:
+                    if o[0][k] != 0 and m != "?filtered":
                         mods_by_axis.setdefault(k, set()).add(m)
             mixed = {k: v for k, v in mods_by_axis.items() if len(v) > 1}
             ctx.ob("LAT-4", f"{ci.qualname}.get_nearest_neighbors [{label}]: each axis wraps consistently",
-                   not mixed and all((m,) == extent[k] for o in offs for k, m in enumerate(o[1]) if m),
+                   not mixed and all((m,) == extent[k] for o in offs for k, m in enumerate(o[1]) if m and m != "?filtered"),
                    f"moduli per axis {mods_by_axis}, extents {extent}", gnn)
             # an axis that is not wrapped in this configuration can leave [0, extent): the adjacency builder must
             # test that coordinate itself (a test on the flattened index aliases into the neighbouring row)
-            cam = ci.methods.get("create_adjacency_matrix")
+            cam = _adjacency_builder(ctx, ci)
             unwrapped = sorted({k for o in offs for k, m in enumerate(o[1]) if m is None and o[0][k] != 0})
             if cam is not None and unwrapped and len(extent) > 1:
                 g = _ADJ_GUARDED.get(ci.qualname, {})
